@@ -2,6 +2,7 @@ package engine
 
 import (
 	"bufio"
+	"context"
 	"crypto/sha1"
 	"encoding/binary"
 	"encoding/json"
@@ -14,6 +15,7 @@ import (
 	"strconv"
 	"strings"
 	"sync"
+	"syscall"
 	"time"
 )
 
@@ -78,6 +80,9 @@ func RunWorker(id, tier string, shard, nshards int, outPath string) error {
 	if ck == nil {
 		return fmt.Errorf("unknown property %s", id)
 	}
+	// a runaway library call must kill this worker, not the machine
+	lim := syscall.Rlimit{Cur: 10 << 30, Max: 10 << 30}
+	syscall.Setrlimit(syscall.RLIMIT_AS, &lim)
 	out := workerOut{Phases: map[string]*Stats{}}
 	hashes := map[string][2][]uint64{}
 	for _, ph := range ck.Phases(tier) {
@@ -258,6 +263,14 @@ func RunCheck(id, tier string, nworkers int) int {
 	}
 	defer os.RemoveAll(tmp)
 	phases := ck.Phases(tier)
+	var maxBudget time.Duration
+	for _, ph := range phases {
+		b := ph.Budget
+		if b == 0 {
+			b = defaultBudget(tier)
+		}
+		maxBudget += b
+	}
 	type wres struct {
 		idx  int
 		err  error
@@ -270,7 +283,9 @@ func RunCheck(id, tier string, nworkers int) int {
 		go func(w int) {
 			defer wg.Done()
 			out := filepath.Join(tmp, fmt.Sprintf("w%d.json", w))
-			cmd := exec.Command(self, "-prop", id, "-tier", tier, "-shard", strconv.Itoa(w), "-nshards", strconv.Itoa(nworkers), "-out", out)
+			ctx, cancel := context.WithTimeout(context.Background(), maxBudget*3/2+2*time.Minute)
+			defer cancel()
+			cmd := exec.CommandContext(ctx, self, "-prop", id, "-tier", tier, "-shard", strconv.Itoa(w), "-nshards", strconv.Itoa(nworkers), "-out", out)
 			cmd.Env = append(os.Environ(), "GOMAXPROCS=2", "GOMEMLIMIT=3GiB")
 			var sb strings.Builder
 			cmd.Stdout = &sb
